@@ -557,6 +557,88 @@ def part_pairs(ck, total):
     total.add('evaluations', len(items))
 
 
+# ---- part (f): escapes and scale --------------------------------------------------------------------------------
+# Small-scope enumeration never reaches three input classes whose handling sits in library calls with their own
+# failure modes: escape sequences that need a lookup (\N{name}, \U beyond the Unicode range), digit strings beyond
+# int()'s conversion limit, and nesting / chain lengths beyond the interpreter's recursion limit.  The grid below is
+# (escape bodies <= 2) x string kinds x frames, (digit-run lengths) x bases, and (forms) x (depths) x (closed, open).
+ESC_UNITS = ['\\N{LATIN SMALL LETTER A}', '\\N{COMMERCIAL AT}', '\\N{foo}', '\\N{}', '\\N{', '\\N', '\\N{a', '\\N{\u00e9}', '\\N{{}',
+             '\\U00000041', '\\U0010FFFF', '\\U00110000', '\\UFFFFFFFF', '\\U0000D800', '\\U0000004', '\\U',
+             '\\u0041', '\\uD800', '\\uDFFF', '\\uFFFF', '\\u004', '\\x00', '\\x41', '\\xff', '\\x4', '\\x',
+             '\\0', '\\7', '\\101', '\\377', '\\400', '\\777', '\\8', '\\\\', "\\'", '\\q', '@', 'a']
+ESC_KINDS = [("'", "'"), ("f'", "'"), ("'''", "'''"), ("f'''", "'''")]
+ESC_FRAMES = [('x = ', '\n'), ('f(', ', [1])\n'), ('x = {', ': 1}\n')]
+SCALE_LENGTHS = [1, 10, 100, 1000, 4300, 4301, 5000, 20000]
+SCALE_DEPTHS_Q = [1, 10, 50, 90, 100, 500, 5000]
+SCALE_DEPTHS_T = SCALE_DEPTHS_Q + [50000]
+NEST_FORMS = [('paren', 'x = ', '(', '1', ')'), ('array', 'x = ', '[', '1', ']'), ('dict', 'x = ', "{'k': ", '1', '}'),
+              ('call', 'x = ', 'f(', '1', ')'), ('kwcall', 'x = ', 'f(k: ', '1', ')'), ('index', 'x = ', 'a[', '0', ']'),
+              ('not', 'x = ', 'not ', 'true', ''), ('minus', 'x = ', '-', '1', ''), ('if', '', 'if true\n', 'x = 1\n', 'endif\n'),
+              ('foreach', '', 'foreach i : a\n', 'x = 1\n', 'endforeach\n'), ('ternary', 'x = ', 'true ? 1 : (', '2', ')'),
+              ('mixed', 'x = ', 'f([(', '1', ')])')]
+CHAIN_FORMS = [('plus', 'x = 1', ' + 1'), ('and', 'x = true', ' and true'), ('or', 'x = true', ' or false'), ('method', 'x = a', '.f()'),
+               ('index', 'x = a', '[0]'), ('mul', 'x = 1', ' * 2'), ('args', 'f(1', ', 1'), ('array', 'x = [1', ', 1'),
+               ('statements', 'x = 1', '\nx = 1'), ('elif', 'if a\n', 'elif a\n'), ('comments', 'x = 1', ' # c\n'),
+               ('continuation', 'x = 1', ' \\\n + 1'), ('plusassign', 'x = 1', '\nx += 1')]
+
+
+def scale_job(item):
+    kind = item[0]
+    acc = Acc()
+    if kind == 'esc':
+        first = item[1]
+        for second in [''] + ESC_UNITS:
+            body = first + second
+            for op, cl in ESC_KINDS:
+                for pre, post in ESC_FRAMES:
+                    t = pre + op + body + cl + post
+                    acc.record(t, evaluate(t, False), lambda: 'scale: escape body %r' % body)
+                    acc.add('escape_cases')
+    elif kind == 'num':
+        n = item[1]
+        for prefix, digit in (('', '1'), ('', '9'), ('0x', 'f'), ('0X', '1'), ('0o', '7'), ('0b', '1'), ('0', '0'), ('', '0')):
+            for pre, post in (('x = ', '\n'), ('f(', ')\n'), ('x = -', '\n')):
+                t = pre + prefix + digit * n + post
+                acc.record(t, evaluate(t, False), lambda: 'scale: %d-digit number (%s)' % (n, prefix or 'decimal'))
+                acc.add('number_cases')
+    elif kind == 'nest':
+        _, (name, pre, op, core, cl), d = item
+        for closers in (d, 0, d // 2, d + 1):
+            t = pre + op * d + core + cl * closers + ('' if (cl * closers + core).endswith('\n') else '\n')
+            o = evaluate(t, False)
+            acc.record(t, o, lambda: 'scale: %s nested %d deep, %d closers' % (name, d, closers))
+            acc.add('nesting_cases')
+            if o.cls == 'accept':
+                acc.add('nesting_accepted_depth_%d' % d)
+    else:
+        _, (name, base, unit), n = item
+        for tail in ('\n', ')\n', ']\n', '\nendif\n'):
+            t = base + unit * n + tail
+            o = evaluate(t, False)
+            acc.record(t, o, lambda: 'scale: %s chain of %d' % (name, n))
+            acc.add('chain_cases')
+            if o.cls == 'accept' and not o.viol:
+                acc.add('chain_roundtrips')
+    return acc
+
+
+def part_scale(ck, total):
+    depths = ck.q(SCALE_DEPTHS_Q, SCALE_DEPTHS_T)
+    items = [('esc', u) for u in ESC_UNITS] + [('num', n) for n in SCALE_LENGTHS]
+    items += [('nest', f, d) for f in NEST_FORMS for d in depths]
+    items += [('chain', f, n) for f in CHAIN_FORMS for n in SCALE_LENGTHS]
+    acc = Acc()
+    for a in pmap(scale_job, items, chunksize=1):
+        acc.merge(a)
+    need(acc.n.get('escape_cases', 0) == len(ESC_UNITS) * (len(ESC_UNITS) + 1) * len(ESC_KINDS) * len(ESC_FRAMES), 'escape grid accounting')
+    need(acc.n.get('nesting_accepted_depth_50', 0) > 0, 'no 50-deep nesting was accepted')
+    need(acc.n.get('chain_roundtrips', 0) > 0, 'no chain round-tripped')
+    ck.part('scale', escape_units=len(ESC_UNITS), string_kinds=len(ESC_KINDS), frames=len(ESC_FRAMES), digit_run_lengths=SCALE_LENGTHS,
+            nesting_forms=len(NEST_FORMS), nesting_depths=depths, chain_forms=len(CHAIN_FORMS), chain_lengths=SCALE_LENGTHS,
+            **{k: v for k, v in sorted(acc.n.items())})
+    total.merge(acc)
+
+
 # ------------------------------------------------------------------------------------------------------------
 def report(ck, total):
     """violations shortest-first; every reported case is re-evaluated here (a different process than the worker)"""
@@ -596,6 +678,8 @@ def main():
         part_gaps(ck, total)
     if ck.want('pairs'):
         part_pairs(ck, total)
+    if ck.want('scale'):
+        part_scale(ck, total)
     report(ck, total)
     if UNMET and not ck.n_viol:
         ck.internal('vacuity/self-check failed: ' + '; '.join(UNMET))
